@@ -90,9 +90,9 @@ CLAIMED = {
  },
  "C03": {
   "technique": "Lean 4 simulation proof (translator model vs WebAssembly semantics, all bodies / nesting depths / fuel) + token-for-token correspondence of the translator model with the real w2c2 + e2e vs V8",
-  "text": "compile_sim_partial / func_sim_partial: for every function body the (strict) model of w2c2's single-pass translator accepts, every operand stack, locals and amount of fuel, when WebAssembly execution of block/loop/if/br/br_if/br_table/return/unreachable/select/drop/nop/local.*/global.*/const/numeric/load/store/memory.size/memory.grow/memory.copy/memory.fill/memory.init/call/call_indirect instructions finishes normally, by a branch (any depth, any stack height, with its carried value) or by a trap, the emitted C (slot variables, goto, labelled blocks, switch) finishes the same way with every operand in its slot and equal locals, globals and memory; whole functions return the same value and leave the same instance state, with parameters = arguments and declared locals zero. module_sim_concrete (Props/C03Num) instantiates every parameter of that theorem: the specification side runs Spec.numOp / Spec.load / Spec.store, the emitted-C side EXECUTES, by the C semantics, the statement w2c2 emits for each of the 136 numeric opcodes (dispatch table and header macros regenerated from c.c / w2c2_base.h) and the regenerated load/store functions — C01, C02 and C05 composed with C03/C04 in one theorem. The model is tied to the real translator on every run: the rendered model output equals the real w2c2 output token by token for every function of thousands of generated modules in plain/-p/-m modes, and the compiled real output agrees with V8.",
+  "text": "compile_sim_partial / func_sim_partial: for every function body the (strict) model of w2c2's single-pass translator accepts, every operand stack, locals and amount of fuel, when WebAssembly execution of block/loop/if/br/br_if/br_table/return/unreachable/select/drop/nop/local.*/global.*/const/numeric/load/store/memory.size/memory.grow/memory.copy/memory.fill/memory.init/atomic load/store/rmw/cmpxchg/fence (as executed by one thread)/call/call_indirect instructions finishes normally, by a branch (any depth, any stack height, with its carried value) or by a trap, the emitted C (slot variables, goto, labelled blocks, switch) finishes the same way with every operand in its slot and equal locals, globals and memory; whole functions return the same value and leave the same instance state, with parameters = arguments and declared locals zero. module_sim_concrete (Props/C03Num) instantiates every parameter of that theorem: the specification side runs Spec.numOp / Spec.load / Spec.store, the emitted-C side EXECUTES, by the C semantics, the statement w2c2 emits for each of the 136 numeric opcodes (dispatch table and header macros regenerated from c.c / w2c2_base.h) and the regenerated load/store functions — C01, C02 and C05 composed with C03/C04 in one theorem. The model is tied to the real translator on every run: the rendered model output equals the real w2c2 output token by token for every function of thousands of generated modules in plain/-p/-m modes, and the compiled real output agrees with V8.",
   "design_ref": "DESIGN.md §5 C03, §10",
-  "note": "Partial: data.drop (w2c2 reports it as unimplemented and emits nothing) and atomic instructions inside a body make the modelled run `stuck` (outside the theorem; atomics are covered by C16 + e2e); wasmMemoryGrow and host functions are parameters (any function). Trusted: Model.Sim's source semantics = the specification (tied to V8 by the xrun/mrun correspondence and e2e); the hand-written translator model only through emit-tokens.",
+  "note": "Partial: data.drop (w2c2 reports it as unimplemented and emits nothing) and memory.atomic.wait/notify inside a body make the modelled run `stuck` (outside the theorem: C17's subject); wasmMemoryGrow and host functions are parameters (any function). Trusted: Model.Sim's source semantics = the specification (tied to V8 by the xrun/mrun correspondence and e2e); the hand-written translator model only through emit-tokens.",
  },
  "C04": {
   "technique": "Lean 4 module-level simulation (function index space, recursion to any depth, host imports, call_indirect) + element-segment initialisation theorem + emit-tokens / e2e host-trace correspondence",
